@@ -145,6 +145,57 @@ Theorem C12_save_unedited : forall img t pol out, good_img img -> parse img = Ok
 Proof. exact c12_unedited. Qed.
 Print Assumptions C12_save_unedited.
 
+(* ---- tighten_me inside a sequence of edits ----
+   In "utk IMAGE edit ... tighten_me ... edit ... save" tighten_me does not meet the result of a
+   parse but the tree the edits before it left.  The clauses above hold for EVERY tree that is
+   well formed ([wf_tree]: the descriptor is one block, 15 region entries, every region buffer
+   has the size its entry says, the regions tile the flash, the recorded free space offset is the
+   largest partition end, at most one ME and one BIOS region - what NewFlashImage establishes by
+   C12_parse_wf and what Assemble needs to write the image at all), tighten_me keeps a tree well
+   formed, so the statements chain through any number of steps.  [body t] is the concatenation
+   of the region buffers: the saved bytes behind the descriptor.  [desc_bounds t]: the three
+   descriptor sections lie inside the descriptor block and the raw map/master bytes are the ones
+   of the buffer. *)
+Theorem C12_seq_tm_keeps_wf : forall pol t t', wf_tree t -> tm pol t = Ok t' -> wf_tree t'.
+Proof. exact tm_wf. Qed.
+Print Assumptions C12_seq_tm_keeps_wf.
+
+Theorem C12_seq_tm_boundary : forall pol t t', wf_tree t -> tm pol t = Ok t' ->
+  exists mb fp fso, In (RME mb fp fso) (t_regions t) /\
+    base_off (me_fr t) + fso <= end_off (me_fr t') < base_off (me_fr t) + fso + ifd_block /\
+    fr_base (bios_fr t') = fr_limit (me_fr t') + 1 /\
+    fr_base (me_fr t') = fr_base (me_fr t) /\ fr_limit (bios_fr t') = fr_limit (bios_fr t) /\
+    end_off (me_fr t') <= end_off (me_fr t) /\
+    (forall i, 2 <= i -> slot (t_slots t') i = slot (t_slots t) i).
+Proof. exact tm_boundary_tree. Qed.
+Print Assumptions C12_seq_tm_boundary.
+
+(* what is saved behind the descriptor is the same before and after, whatever the tree holds *)
+Theorem C12_seq_tm_bytes_outside_descriptor_unchanged : forall pol t t' o o', wf_tree t -> desc_bounds t ->
+  tm pol t = Ok t' -> save pol t = Ok o -> save pol t' = Ok o' ->
+  zskipn ifd_desc_len o' = zskipn ifd_desc_len o /\ zlen o' = zlen o.
+Proof. exact tm_bytes_outside_tree. Qed.
+Print Assumptions C12_seq_tm_bytes_outside_descriptor_unchanged.
+
+Theorem C12_seq_tm_partitions_inside : forall pol t t' mb' es fso, wf_tree t -> tm pol t = Ok t' ->
+  In (RME mb' (Some es) fso) (t_regions t') ->
+  zlen mb' = end_off (me_fr t') - base_off (me_fr t') /\
+  forall e, In e es -> offset_is_valid (fst e) = true -> fst e + snd e <= zlen mb'.
+Proof. exact tm_partitions_inside_tree. Qed.
+Print Assumptions C12_seq_tm_partitions_inside.
+
+Theorem C12_seq_tm_freed_is_leading_erased_padding : forall pol t t', wf_tree t -> tm pol t = Ok t' ->
+  exists tail els' bl', In (RBios (BPad tail 0 :: els') bl') (t_regions t') /\
+    is_erased tail pol = true /\ zlen tail = base_off (bios_fr t) - base_off (bios_fr t').
+Proof. exact tm_freed_tree. Qed.
+Print Assumptions C12_seq_tm_freed_is_leading_erased_padding.
+
+(* once it succeeded, any number of further runs succeeds and saves the same file *)
+Theorem C12_seq_tm_any_number_equals_once : forall pol n t t1, wf_tree t -> tm pol t = Ok t1 ->
+  exists tn, tm_n n pol t1 = Ok tn /\ save pol tn = save pol t1.
+Proof. exact tm_n_once. Qed.
+Print Assumptions C12_seq_tm_any_number_equals_once.
+
 (* ---- non-vacuity: a concrete 16 KiB image ---- *)
 
 (* descriptor | ME blocks 1-2 | BIOS block 3.  FPT at 16 with two entries: a partition
@@ -221,6 +272,16 @@ Example ex_save :
   obytes_eqb (save 255 ex_t') (Ok (put 68 [2] (put 74 [1] ex_img))) &&
   obytes_eqb (save 255 ex_t) (Ok ex_img) && obytes_eqb (run 2 ex_img) (run 1 ex_img) &&
   obytes_eqb (run 1 ex_img) (save 255 ex_t') = true.
+Proof. vm_compute. reflexivity. Qed.
+
+(* the sequence theorems are not vacuous: the example tree is well formed, its descriptor
+   sections are in bounds, and three runs save what one run saves *)
+Example ex_seq : wf_tree ex_t /\ desc_bounds ex_t.
+Proof.
+  destruct (C12_parse_wf _ _ _ ex_good ex_parse) as (W & _). split; [exact W|].
+  vm_compute. repeat split; intros H; discriminate H.
+Qed.
+Example ex_seq_runs : obytes_eqb (run 3 ex_img) (run 1 ex_img) = true.
 Proof. vm_compute. reflexivity. Qed.
 
 (* refusals and the panic *)
